@@ -1014,8 +1014,8 @@ func flushTest(t *testing.T, prop string) {
 		defer o.w.close()
 		st.eval()
 		if sig, msg := judgeFlush(rec.Scenario, o); sig != "" {
-			vReport(vViolation{Property: prop, Slot: "replay:" + prop, Signature: sig, Message: msg, Replay: e2Replay{Scenario: rec.Scenario, Decisions: o.w.trace()}})
-			t.Fatalf("%s violated [%s]: %s", prop, sig, msg)
+			vReport(vViolation{Property: prop, Slot: "replay:" + prop, Signature: sig, Message: msg, Replay: e2Replay{Scenario: rec.Scenario, Decisions: o.w.trace(), Events: o.w.names(), TraceTail: o.w.describeTrace(60)}})
+			t.Fatalf("%s violated [%s]: %s\nlast steps:\n%s\nstate: %s", prop, sig, msg, o.w.describeTrace(60), o.w.s.Describe())
 		}
 		return
 	}
